@@ -55,8 +55,8 @@ theorem C10_insert_order (d : Distinfo) (e : Entry) :
 
 /-- The property at full strength. -/
 def C10_bytes_roundtrip : Prop :=
-  ∀ f : Bytes, S.canonical f = true → (distinfoFromBytes f).asBytes = f
+  ∀ f : Bytes, S.canonicalDistinfo f = true → (distinfoFromBytes f).asBytes = f
 
 /-- non-vacuity: the doc-comment example file is canonical -/
-example : S.canonical (ascii "$NetBSD: distinfo,v 1.1 2024/01/01 00:00:00 x Exp $\n\nBLAKE2s (foo-1.0.tar.gz) = aa\nSHA512 (foo-1.0.tar.gz) = bb\nSize (foo-1.0.tar.gz) = 42 bytes\nSHA1 (patch-aa) = cc\n") = true := by
+example : S.canonicalDistinfo (ascii "$NetBSD: distinfo,v 1.1 2024/01/01 00:00:00 x Exp $\n\nBLAKE2s (foo-1.0.tar.gz) = aa\nSHA512 (foo-1.0.tar.gz) = bb\nSize (foo-1.0.tar.gz) = 42 bytes\nSHA1 (patch-aa) = cc\n") = true := by
   decide +kernel
